@@ -100,7 +100,7 @@ PARSE_FACTS = {
 
 PROPS = {}
 
-GEN_OPS = ("GNLI ", "GNC ", "GSPLIT ", "GFP ", "GSL ", "GSCAN ", "GFINITE ", "GVALID ", "GUT ", "GPARSE ")
+GEN_OPS = ("GNLI ", "GNC ", "GSPLIT ", "GFP ", "GSL ", "GSCAN ", "GFINITE ", "GVALID ", "GUT ", "GWT ", "GPARSE ")
 
 
 def with_gen(cmp):
@@ -122,7 +122,7 @@ def hist_with_gen(h):
 
 
 GEN_NOTE = ("the leaf functions (NewlineIndex, NextChunk, trimFirstSpace, getFieldName, splitFunc, FieldParser.*, isSingleLine, "
-            "topicsIntersect, queue.enqueue/dequeue/resize), the encoding side, bufio.Scanner.Scan and replay.go (ensureID, queue.each, "
+            "topicsIntersect, queue.enqueue/dequeue/resize), the encoding side (WriteTo, MarshalText, String), bufio.Scanner.Scan and replay.go (ensureID, queue.each, "
             "findIDInQueue, FiniteReplayer.Put/Replay, ValidReplayer.Put/GC/Replay) are translated from /repo's source to Lean on every run (translate/) and proved equal to the "
             "model (GoSSE/Proofs/GenEquiv*.lean); the translator's reading of Go (GoSSE/GoRT.lean) is validated by the GEN ops")
 
